@@ -7,7 +7,7 @@ LEAN_MODULES = ["ViaProofs.C06"]
 LEMMA_MODULES = ['ViaProofs.Trans.RL', 'ViaProofs.Trans.FL', 'ViaProofs.Trans.CH', 'ViaProofs.Trans.MH', 'ViaProofs.Trans.CK', 'ViaProofs.Trans.RQ', 'ViaProofs.Trans.RR', 'ViaProofs.Trans.MHA', 'ViaProofs.Trans.RQP']
 REQUIRED_THEOREMS = ["Via.C06"]
 LEVEL = "proof"
-LEVEL_TEXT = ('PROOF that after every reachable receiver state the retained bytes are bounded by an explicit formula in the configured limits (invariant over all byte streams and fragmentations); translated parsers as C01; correspondence on endless-stream families (sizes after every receive compared with the bound).')
+LEVEL_TEXT = ('PROOF that after every reachable receiver state the retained bytes are bounded by an explicit formula in the configured limits (invariant over all byte streams and fragmentations); translated parsers and receive as C01; correspondence on endless-stream families (sizes after every receive compared with the bound).')
 RULE = ("adversarial endless streams (empty-name lines, repeated-name lines, distinct-name lines, folded lines, whitespace runs, "
         "endless method / target, huge Content-Length, endless chunk sequences, endless chunk extensions, endless trailers) fed "
         "line-by-line, byte-by-byte and in bulk up to several times the bound; after every read the retained bytes reported by the "
